@@ -44,10 +44,12 @@ class Gen:
         self.k = 0
         self.cases = []
 
-    def add(self, n, api, vk, ins, safe=0, hcoll=0, aggr=0, indep=0, nr=2, x=None, tmo=None):
+    def add(self, n, api, vk, ins, safe=0, hcoll=0, aggr=0, indep=0, nr=2, x=None, tmo=None, dm=None):
         self.k += 1
         cid = 'c%d' % self.k
         line = 'CASE %s %s %s safe=%d hcoll=%d aggr=%d indep=%d nr=%d' % (cid, api, vk, safe, hcoll, aggr, indep, nr)
+        if dm is not None:
+            line += ' dm=%d' % dm
         if x:
             line += ' x=%s' % x
         line += ''.join(' | ' + i for i in ins)
@@ -160,7 +162,71 @@ def gen_cases(rng, tier, ns):
         if fl['safe'] and rng.chance(1, 2):
             ins[rng.range(1, n - 1)] = 'E multi'
         g.add(n, 'rename_var', 'rec', ins, nr=0, **fl)
+    gen_meta_cases(g, rng, tier, ns)
     return g.cases
+
+
+# safe-mode metadata calls: slots of `M name name2 ident xtype len vals` (meaning per kind: see harness/c08_coll.c)
+META = {
+    #  kind: (base arguments, [(slot, alternative value)], data mode allowed, alternative bases)
+    'putatt': ([1, 0, 0, 0, 4, 7], [(0, 2), (2, 1), (3, 1), (4, 0), (4, 2), (5, 8)], True, [[1, 0, 0, 0, 0, 7]]),
+    'defdim': ([1, 0, 0, 0, 4, 0], [(0, 2), (4, 5)], False, []),
+    'defvar': ([1, 0, 0, 0, 2, 0], [(0, 2), (3, 1), (4, 0), (4, 1), (5, 1)], False, [[1, 0, 0, 0, 0, 0]]),
+    'renamedim': ([0, 0, 0, 0, 0, 0], [(0, 1), (2, 1)], True, []),
+    'renameatt': ([1, 0, 0, 0, 0, 0], [(0, 2), (1, 1), (2, 1)], True, []),
+    'delatt': ([1, 0, 0, 0, 0, 0], [(0, 2), (2, 1)], False, []),
+    'copyatt': ([2, 0, 0, 0, 0, 0], [(0, 1), (2, 1)], True, []),
+    'setfill': ([0, 0, 0, 1, 0, 0], [(3, 0)], False, []),
+    'defvarfill': ([0, 0, 1, 0, 1, 5], [(2, 0), (3, 1), (4, 0), (5, 6)], False, [[0, 0, 1, 0, 0, 5]]),
+}
+META_NAMED = ('putatt', 'defdim', 'defvar', 'renamedim', 'renameatt')      # a bad name gives NC_EBADNAME on that rank
+
+
+def gen_meta_cases(g, rng, tier, ns):
+    def m(a):
+        return 'M ' + ' '.join(str(x) for x in a)
+    kn = 0
+    for kind, (base, alts, dmok, bases2) in META.items():
+        api = 'meta_' + kind
+        sizes = ['small', 'big'] if kind in ('putatt', 'copyatt') else ['small']
+        # --- agreement, safe mode on and off, define and data mode
+        for safe in (0, 1):
+            for dm in ((0, 1) if dmok else (0,)):
+                n = ns[kn % len(ns[:2])]; kn += 1
+                g.add(n, api, 'rec', [m(base)] * n, safe=safe, hcoll=rng.below(2), nr=2, x=sizes[kn % len(sizes)], dm=dm)
+        # --- one argument differs, on root or on the last rank; safe mode (without it this is not an error but an inconsistent call)
+        allbases = [base] + bases2
+        for b in allbases:
+            for slot, v in alts:
+                if b[slot] == v:
+                    v = base[slot] if b is not base else v
+                    if b[slot] == v:
+                        continue
+                odd = list(b); odd[slot] = v
+                for pos in ('root', 'last'):
+                    for sz in sizes:
+                        if tier == 'quick' and sz == 'big' and not (kind == 'putatt' and slot in (4, 5)):
+                            continue
+                        n = ns[kn % len(ns[:2])]; kn += 1
+                        ins = [m(b)] * n
+                        ins[0 if pos == 'root' else n - 1] = m(odd)
+                        dm = 1 if (dmok and rng.chance(1, 3)) else 0
+                        g.add(n, api, 'rec', ins, safe=1, hcoll=rng.below(2), nr=2, x=sz, dm=dm)
+        # --- two ranks disagree in different ways (3 ranks): the calls compared in the dispatcher hand the minimum to everybody
+        if kind not in ('setfill', 'defvarfill') and len(alts) >= 2 and 3 in ns:
+            for _ in range(2 if tier == 'quick' else 6):
+                (s1, v1), (s2, v2) = rng.choice(alts), rng.choice(alts)
+                o1 = list(base); o1[s1] = v1
+                o2 = list(base); o2[s2] = v2
+                g.add(3, api, 'rec', [m(base), m(o1), m(o2)], safe=1, hcoll=rng.below(2), nr=2, x='small', dm=0)
+        # --- an argument that is in error on one rank only
+        if kind in META_NAMED:
+            for safe in (0, 1):
+                for dm in ((0, 1) if dmok else (0,)):
+                    n = ns[kn % len(ns[:2])]; kn += 1
+                    ins = [m(base)] * n
+                    ins[rng.below(n)] = 'E badname ' + ' '.join(str(x) for x in base)
+                    g.add(n, api, 'rec', ins, safe=safe, hcoll=rng.below(2), nr=2, x='small', dm=dm)
 
 
 WITNESSES = [
@@ -176,6 +242,16 @@ WITNESSES = [
     # vardGuard (index 4) is not about matching: under NC_HCOLL a zero-length vard whose filetype reaches record 0 makes
     # root rewrite numrecs (one more collective write) iff getput_vard advances numrecs for requests that write nothing
     ('vard-guard', 4, 2, 'CASE w9 put_vard rec safe=0 hcoll=1 aggr=0 indep=0 nr=0 tmo=12 | Z | Z'),
+]
+
+
+# witnesses of defects that are replayed only once their finding line is in KNOWN_FINDINGS.txt (until then the generator
+# stays away from them: a check must be silent on the unchanged tree).  (name, signature, ranks, case line)
+COND_WITNESSES = [
+    ('safe-defvarfill', 'def_var_fill-safe-mode-rank-keeps-own-code', 3,
+     'CASE w10 meta_defvarfill rec safe=1 hcoll=0 aggr=0 indep=0 nr=2 dm=0 x=small tmo=12 | M 0 0 1 0 1 5 | M 0 0 1 1 1 5 | M 0 0 1 0 1 6'),
+    ('safe-putatt-xtype', 'put_att-safe-mode-xtype-disagreement-mismatched-bcast', 2,
+     'CASE w11 meta_putatt rec safe=1 hcoll=0 aggr=0 indep=0 nr=2 dm=0 x=big tmo=12 | M 1 0 0 4 4 7 | M 1 0 0 3 4 7'),
 ]
 
 
@@ -256,7 +332,7 @@ def trigger_sig(case, model=None, rps='00000'):
         return 'put_var_all-recvar-argerr-zero-path-skips-numrecs-allreduce'
     if api == 'fill_var_rec':
         return 'fill_var_rec-argerr-returns-before-collective-fill'
-    if api in ('rename_var', 'enddef_'):
+    if api in ('rename_var', 'enddef_') or api.startswith('meta_'):
         return 'hcoll-metadata-call-argerr-returns-before-collective-header-write'
     return 'unmatched-collectives:%s' % api
 
@@ -286,7 +362,7 @@ def judge(case, model, obs, V, stats, rps='00000'):
             for r in range(n):
                 t = case['ins'][r].split()
                 want = None
-                if t[0] in ('V', 'Z', '-', 'I', 'P') and (t[0] != 'P' or t[3] != 'bad'):
+                if t[0] in ('V', 'Z', '-', 'I', 'P', 'M') and (t[0] != 'P' or t[3] != 'bad'):
                     want = 0
                     if case['api'] in ('create', 'open'):
                         want = None
@@ -294,7 +370,7 @@ def judge(case, model, obs, V, stats, rps='00000'):
                     want = KIND_CODE[t[1]]
                 if want is not None and R[r][0] != want:
                     code_fail = 'rank %d passed %s and got code %d instead of %d' % (r, case['ins'][r], R[r][0], want)
-        elif case['api'] in ('create', 'open', 'enddef', 'enddef_', 'rename_var', 'fill_var_rec'):
+        elif case['api'] in ('create', 'open', 'enddef', 'enddef_', 'rename_var', 'fill_var_rec') or case['api'].startswith('meta_'):
             if len(set(R[r][0] for r in R)) > 1:
                 code_fail = 'safe mode: ranks got different codes ' + str([R[r][0] for r in sorted(R)])
         bad = [(r, D[r]) for r in sorted(D) if D[r] != 'ok']
@@ -324,6 +400,11 @@ def judge(case, model, obs, V, stats, rps='00000'):
     if tie is None and model['completed'] and hang:
         tie = 'implementation deadlocks, model completes'
     stats['prop_fail' if prop_fail else 'ok'] = stats.get('prop_fail' if prop_fail else 'ok', 0) + 1
+    exp = case.get('expect_sig')
+    if exp and (prop_fail or code_fail):
+        V.failing_input(exp, prop_fail or code_fail, dict(case=desc, ranks=n, observed={str(k): v for k, v in R.items()},
+                                                          hung={str(k): v for k, v in H.items()}, harness='harness/c08_coll.c'))
+        return None
     if prop_fail:
         sig = trigger_sig(case, model, rps) if (not model['completed'] and tie is None and any(t for _, _, t in model['ranks'])) else \
             'unmatched-collectives:%s:%s' % (case['api'], '+'.join(sorted(set(i.split()[0] + (i.split()[1] if i[0] in 'ED' and len(i.split()) > 1 else '') for i in case['ins']))))
@@ -384,7 +465,10 @@ def run_check(tier, seed):
         t1 = Timer()
         pool = concurrent.futures.ThreadPoolExecutor(max_workers=8)
         # witnesses (launched now, evaluated below): which repairs does this tree contain?
-        wf = {w[0]: pool.submit(run_harness, exe, wd, 'w_' + w[0], w[2], [w[3]], 90) for w in WITNESSES}
+        known_sigs = set(k['sig'] for k in V.known)
+        cond = [(nm, -1, n, line, sig) for nm, sig, n, line in COND_WITNESSES if sig in known_sigs]
+        allw = [w + (None,) for w in WITNESSES] + cond
+        wf = {w[0]: pool.submit(run_harness, exe, wd, 'w_' + w[0], w[2], [w[3]], 90) for w in allw}
         cases = gen_cases(rng, tier, ns)
         lays = {}
         # which cases may leave the common sequence (judged with the unrepaired model: a superset for any tree)
@@ -467,12 +551,12 @@ def run_check(tier, seed):
                 dist['in:' + k] = dist.get('in:' + k, 0) + 1
         # witnesses: judged like every other case (this is what prints the KNOWN-FINDING lines)
         wcases = []
-        for name, idx, n, line in WITNESSES:
+        for name, idx, n, line, esig in allw:
             t = line.split(' | ')
             h = t[0].split()
             kv = dict(x.split('=') for x in h[4:] if '=' in x)
             wcases.append(dict(id=h[1], n=n, api=h[2], vk=h[3], ins=t[1:], safe=int(kv['safe']), hcoll=int(kv['hcoll']), aggr=int(kv['aggr']),
-                               indep=0, nr=int(kv['nr']), x=None, line=line, name=name))
+                               indep=0, nr=int(kv['nr']), x=None, line=line, name=name, expect_sig=esig))
         wl = {}
         for w in wcases:
             o = wres[w['name']][0].get(w['id'])
